@@ -263,19 +263,24 @@ class TuningStatus:
 
 
 def print_best_metric_found(
-    tuning_status: TuningStatus, metric_names: List[str], mode: Optional[str] = None
+    tuning_status: TuningStatus,
+    metric_names: List[str],
+    mode: Optional[Union[str, List[str]]] = None,
 ) -> Optional[Tuple[int, float]]:
     """Prints trial status summary and the best metric found.
 
     :param tuning_status: Current tuning status
     :param metric_names: Plot results for first metric in this list
-    :param mode: "min" or "max"
+    :param mode: "min" or "max", or list of these (one per metric)
     :return: trial-id and value of the best metric found
     """
     if tuning_status.overall_metric_statistics.count == 0:
         return None
     if mode is None:
         mode = "min"
+    elif isinstance(mode, list):
+        # One mode per metric: The summary is about the first metric
+        mode = mode[0]
     # only plot results of the best first metric for now in summary, plotting the optimal metrics for multiple
     # objectives would require to display the Pareto set.
     metric_name = metric_names[0]
